@@ -593,16 +593,17 @@ Proof.
 Qed.
 
 Section Node.
+  Variable ok : cache -> Prop.
   Hypothesis HBuilt : built_statement.
-  Hypothesis HLook : sblookup_agree_hyp.
-  Hypothesis HHit : sbhit_agree_hyp.
+  Hypothesis HLook : sblookup_agree_hyp_for ok.
+  Hypothesis HHit : sbhit_agree_hyp_for ok.
 
   Lemma sb_setup_built : forall f sa skw w w' r, sb_setup f sa skw w = (w', r) -> c_built (w_new w') = c_built (w_new w).
   Proof. destruct HBuilt as (_ & _ & _ & _ & _ & B & _). exact B. Qed.
 
-  Theorem sb_node_proof : sb_node_statement.
+  Theorem sb_node_proof : sb_node_statement_for ok.
   Proof.
-    intros st f a kw fn T W w s tg pend w1 r o Wa Wk Hbody HS HC Hm s1 r' o' Hc.
+    intros st f a kw fn T W w s tg pend w1 r o Hokc Wa Wk Hbody HS HC Hm s1 r' o' Hc.
     pose proof HS as [[HP HL] [HI [HK HB]]].
     pose proof (s4_sim _ _ _ _ HP) as HS3. pose proof (s4_rinv _ _ _ _ HP) as HR2.
     (* facts about the whole node, on the mechanism side *)
@@ -634,12 +635,12 @@ Section Node.
       apply (node_post_same st tg pend T W); [exact HS|exact HC|apply orec_rel_refl].
     - rewrite Hunc in Hc.
       destruct x as [cached|e]; [|exfalso; exact (proj2 (noraise_holds (fun _ => True) T w HR2) _ _ _ _ El)].
-      pose proof (HLook st T W w s f sa skw wl cached HS (c4_prog _ _ _ _ HC) Ssa Sskw Wsa Wskw Hunc El) as Hdec.
+      pose proof (HLook st T W w s f sa skw wl cached Hokc HS (c4_prog _ _ _ _ HC) Ssa Sskw Wsa Wskw Hunc El) as Hdec.
       destruct cached as [co|].
       + (* the lookup found a record *)
         destruct (core_subhit s f (subbuild_key f sa skw)) as [[[subs' ret'] rr]|] eqn:Eh.
         2:{ exfalso. destruct Hdec as [_ D]. discriminate (D eq_refl). }
-        destruct (HHit st T W w s f sa skw wl co w1' r1 subs' ret' rr HS (c4_prog _ _ _ _ HC) Ssa Sskw Wsa Wskw Hunc El Eh Hx)
+        destruct (HHit st T W w s f sa skw wl co w1' r1 subs' ret' rr Hokc HS (c4_prog _ _ _ _ HC) Ssa Sskw Wsa Wskw Hunc El Eh Hx)
           as (o0 & T' & -> & Hrel & HS' & Hprog & Hfiles & Hold).
         inversion Hm; subst w1' r o. inversion Hc; subst s1 r' o'.
         exists T', W. split; [|split; [|split; [|split; [|split; [|split]]]]].
@@ -706,7 +707,10 @@ Section Node.
   Qed.
 End Node.
 
-Theorem sb_node : built_statement -> sblookup_agree_hyp -> sbhit_agree_hyp -> sb_node_statement.
+Theorem sb_node_for : forall ok, built_statement -> sblookup_agree_hyp_for ok -> sbhit_agree_hyp_for ok -> sb_node_statement_for ok.
 Proof. exact sb_node_proof. Qed.
+
+Theorem sb_node : built_statement -> sblookup_agree_hyp -> sbhit_agree_hyp -> sb_node_statement.
+Proof. exact (sb_node_for (fun _ => True)). Qed.
 
 Print Assumptions sb_node.
